@@ -1098,7 +1098,11 @@ class _Keplerians:
         return kep
 
     def _get_timedelta_in_minutes(self):
-        self._ts = (dt2np(self._utc_time) - self._params.t_0) / np.timedelta64(1, "m")
+        # whole minutes plus the fraction of a minute, so that every datetime64 unit gives the same bits
+        delta = dt2np(self._utc_time) - self._params.t_0
+        minute = np.timedelta64(1, "m")
+        whole = delta // minute
+        self._ts = whole + (delta - whole * minute) / minute
 
     def _calculate_omega(self):
         self.omega = self._params.omegao + self._params.omgdot * self._ts - self._temp0
